@@ -27,6 +27,7 @@ Definition sattr_eqb (a b : sattr) : bool :=
   | SRelayed x, SRelayed y => addr_eqb x y
   | SLifetime x, SLifetime y => x =? y
   | SMapped x, SMapped y => addr_eqb x y
+  | SToken x, SToken y => (x =? y)%N
   | _, _ => false
   end.
 
